@@ -112,7 +112,7 @@ fn main() {
         }
     }
     let types = [RType::Counter, RType::Gauge, RType::Histogram, RType::Summary];
-    rep.rule = format!("families from a bounded generator: for each of counter/gauge/histogram/summary every value of the float pool {:?} in every float slot (sample value, sum, bucket bound, quantile) x 12 bucket/quantile shapes (0-2 buckets, explicit +Inf bound, huge counts), label shapes of 0-2 pairs (thorough: 3) with every assignment from the string pool {:?} also used as help, every timestamp of {:?}; all ordered pairs and triples of a 6-family basis as streams; 20 streams placing a very large family (a 2 KiB token, a 64+ KiB family of 900 samples, a 400-bucket histogram) at every position among small ones; everything gather() returns over the registry enumeration (subsets <=2, all orders, all configs); call histories (failed encode then encode, repeated encode, mutate then re-encode). Each stream: 3 entry points byte-identical, UTF-8, append-only, independent 0.0.4 parser reads back exactly the same families. distinct = distinct encoded texts", floats().iter().map(|f| f64s(*f)).collect::<Vec<_>>(), STRS, TIMESTAMPS);
+    rep.rule = format!("families from a bounded generator: for each of counter/gauge/histogram/summary every value of the float pool {:?} in every float slot (sample value, sum, bucket bound, quantile) x 12 bucket/quantile shapes (0-2 buckets, explicit +Inf bound, huge counts), label shapes of 0-2 pairs (thorough: 3) with every assignment from the string pool {:?} also used as help, every timestamp of {:?}; all ordered pairs and triples of a 6-family basis as streams; 20 streams placing a very large family (a 2 KiB token, a 64+ KiB family of 900 samples, a 400-bucket histogram) at every position among small ones; a size sweep (help text and label value of 0..8300 bytes, thorough also around 16K/32K/64K, ending in an escape, a multi-byte character and a quote); everything gather() returns over the registry enumeration (subsets <=2, all orders, all configs); call histories (failed encode then encode, repeated encode, mutate then re-encode). Each stream: 3 entry points byte-identical, UTF-8, append-only, independent 0.0.4 parser reads back exactly the same families. distinct = distinct encoded texts", floats().iter().map(|f| f64s(*f)).collect::<Vec<_>>(), STRS, TIMESTAMPS);
     rep.bounds = json!({"strings": STRS.len(), "floats": floats().len(), "labels": if thorough {3} else {2}});
 
     let mut run = |rep: &mut Report, fams: &[RFamily], group: &str| {
@@ -143,6 +143,34 @@ fn main() {
     // streams mixing small families with very large ones
     for st in big_streams() {
         run(&mut rep, &st, "big-stream");
+    }
+    // size sweep: a help text and a label value grown byte by byte, ending in an escape, a multi-byte character and a
+    // quote, between two small families — every offset at which an escape or a character can straddle a buffer edge
+    {
+        let small = basis_families();
+        let mut ranges: Vec<std::ops::RangeInclusive<usize>> = vec![0..=8300];
+        if thorough {
+            ranges.extend([16300..=16500, 32700..=32900, 65400..=65700]);
+        }
+        for r in ranges {
+            for k in r {
+                let tok = format!("{}\\\n\u{e9}\"x", "h".repeat(k));
+                let mut m = RMetric { gauge: Some(1.5), ..Default::default() };
+                m.labels = vec![("l".into(), tok.clone())];
+                let f = RFamily { name: "m_sweep".into(), help: tok, typ: RType::Gauge, metrics: vec![m] };
+                let fams = [RFamily { name: "a_first".into(), ..small[0].clone() }, f, RFamily { name: "z_last".into(), ..small[1].clone() }];
+                rep.evaluations += 1;
+                rep.transitions += 6;
+                match watchdog::case(|| format!("text size sweep, token of {} bytes", k), || catch(|| round_trip(&fams))) {
+                    Ok(Ok(text)) => rep.outcome(format!("sweep:{}:{}", text.len() / 4096, k.min(2))),
+                    Ok(Err((class, detail))) => {
+                        let d: String = detail.chars().take(300).collect();
+                        rep.violation(format!("{}:size-sweep", class), format!("token of {}+6 bytes as help and label value: {}", k, d), json!({"engine":"enum","group": "size-sweep", "families": fams.iter().map(|f| f.to_json()).collect::<Vec<_>>(), "detail": d}));
+                    }
+                    Err(p) => rep.violation("panic:size-sweep".to_string(), format!("encoder panicked: {}", p), json!({"engine":"enum","group": "size-sweep", "families": fams.iter().map(|f| f.to_json()).collect::<Vec<_>>(), "detail": p})),
+                }
+            }
+        }
     }
     let basis = basis_families();
     for a in &basis {
